@@ -394,3 +394,5 @@ META = {
                       "lookups with empty or '-' segments (unspecified)"],
     "assumptions": ["fake Path.open / cli.open model the OS", "the library reference is built from an independent option table"],
 }
+if isinstance(META.get("bounds"), dict) and "quick" in META["bounds"]:
+    META["bounds"]["quick"] += '; path patterns (4) on a real temporary directory with 5 directory names, -m / -l; fractional percents'
